@@ -551,7 +551,7 @@ fn u_drain_body<const NT: usize>(cfg: Cfg) {
     a.drain();
     set_mode(Mode::Off);
     let post = snapshot(&a, &l, &trees, cfg, pre.off);
-    vcover!("C10", pre.slot[0].0 && pre.slot[1].0, "two reservations drained");
+    vcover!("C10", pre.slot[0].0 && (pre.slot[1].0 || slots_of(cfg, 1) == 0), "reservations drained (two where the classing has two slots)");
     for c in 0..NCL {
         vassert!("C10", !post.slot[c].0, "a drain empties every slot");
     }
@@ -911,7 +911,7 @@ fn u_steal_global_simple_o9() {
     u_comp_body::<2>(Cfg::Simple, 2, 9, false, 8)
 }
 
-// @h props=C13,C02 tier=thorough geom=1 panics=C09 mem=C18
+// @h props=C04,C13 tier=quick geom=1 panics=C09 mem=C18
 #[kani::proof]
 #[kani::unwind(10)]
 fn u_steal_local_at_zeroed_c2_o0() {
@@ -925,7 +925,7 @@ fn u_steal_local_zeroed_c2_o9() {
     u_comp_body::<2>(Cfg::Zeroed, 3, 9, false, 2)
 }
 
-// @h props=C13,C02 tier=thorough geom=1 panics=C09 mem=C18
+// @h props=C04,C13 tier=quick geom=1 panics=C09 mem=C18
 #[kani::proof]
 #[kani::unwind(10)]
 fn u_demote_local_at_zeroed_c0_o0() {
